@@ -337,7 +337,10 @@ theorem C05_gen_subclass :
     exception raised inside a handler is caught by none of its sibling clauses: the model's handlers
     never raise); with COMMTIMEOUT configured the accepted socket is given its timeout in the accept
     loop before the job exists (so the refusal path, run by the acceptor, cannot block for ever on a
-    stalling peer) resp. before the multiplex handshake. -/
+    stalling peer) resp. before the multiplex handshake; `recv_stub` validates the first six bytes
+    before it reads on (`Item.garbage` is refused at once, also from a peer that stays connected and
+    silent); the fallback for an exception that cannot be serialised is `except Exception` (what
+    `Outcome.raises _ false` = "reported, connection stays" rests on). -/
 theorem C05_gen_shape :
     Pyro.Gen.C05.threadFinally = ["_clientDisconnect", "close"] ∧
     Pyro.Gen.C05.workerNotifiesAfterTry = true ∧
@@ -345,7 +348,9 @@ theorem C05_gen_shape :
     Pyro.Gen.C05.denyAlwaysCloses = true ∧
     Pyro.Gen.C05.unguardedSocketCalls = [] ∧
     Pyro.Gen.C05.threadTimeoutBeforeJob = true ∧
-    Pyro.Gen.C05.multiplexTimeoutBeforeHandshake = true := by decide
+    Pyro.Gen.C05.multiplexTimeoutBeforeHandshake = true ∧
+    Pyro.Gen.C05.headerPrefixValidatedFirst = true ∧
+    Pyro.Gen.C05.exceptionFallbackCatchesAll = true := by decide
 
 /-- **C05_current_source.**  The property for the ladders of the current source, from a daemon
     that has just started: the loop is running, no worker is stranded / the selector is exact. -/
